@@ -42,7 +42,7 @@ MC = {
              StaleOpts=[False, True], MaxOps=3, MaxUpd=1),
         UPDATED_Q,
         dict(name="sequences", Pages=[1, 2, 3], LeafCounts=[1, 9], IntCounts=[290], SizeClasses=[400], SmallN=1,
-             SizePats=["cyc"], DelPats=["alt"], PermPats=["mid"], IntPerms=["append"], SibOpts=["LR", "--"],
+             SizePats=["cyc"], DelPats=["alt"], PermPats=["mid"], IntPerms=["append"], SibOpts=["LR"],
              LsnClasses=["4294967297"], KeyClasses=["wide"], StaleOpts=[False], MaxOps=5, MaxUpd=3),
     ],
     "thorough": [
@@ -135,6 +135,14 @@ def judge(scn, res):
     viol, mach, drift = [], [], []
     if not res.get("ok"):
         mach.append("harness: %s" % res.get("err"))
+        return viol, mach, drift
+    if res.get("died"):
+        # the executor process (address space capped at 1 GiB, see harness/cmd/codec supervise) did not survive the scenario
+        if "out of memory" in res["died"] or "cannot allocate" in res["died"]:
+            viol.append(("oom", "the real code ran out of memory on this scenario (executor capped at 1 GiB died: %s); a page whose "
+                                "length fields do not describe its cells makes decodeLeaf allocate up to 4 GiB per cell" % res["died"][:200]))
+        else:
+            mach.append("harness executor died: %s" % res["died"][:300])
         return viol, mach, drift
     steps, rs = scn["steps"], res["steps"]
     if len(steps) != len(rs):
@@ -306,7 +314,7 @@ def run(ctx):
                         cfgcov["cut_short_after_failures"] = True
                         return
                     yield o
-            pool.run_all(feed(), on_result, chunk=8)
+            pool.run_all(feed(), on_result, chunk=16)
             if mach_errors:
                 raise vlib.Undecided("harness / expectation problem: %s" % mach_errors[0])
             # confirm each failing scenario once from scratch, with full contents, before reporting
@@ -348,6 +356,16 @@ def run(ctx):
                                  out=os.path.join(tdir, "t-%d-%d.ndjson" % (pages, i))))
             got = {}
             pool.run_all(reqs, lambda q, r: got.__setitem__(q["out"], r), chunk=1)
+            died = [(q, got[q["out"]]) for q in reqs if got.get(q["out"], {}).get("died")]
+            if died:
+                q, r = died[0]
+                if "out of memory" not in r["died"] and "cannot allocate" not in r["died"]:
+                    raise vlib.Undecided("random driver died: %s" % r["died"][:300])
+                fid = "c12-trace-oom"
+                vlib.report_violation(ctx, dict(kind="codec-trace", driver_request=q, detail=[
+                    "the real code ran out of memory during the random workload (executor capped at 1 GiB died: %s)" % r["died"][:200]],
+                    finding_ids=[fid]), signature=fid, finding_ids=[fid])
+                continue
             for q in reqs:
                 r = got.get(q["out"])
                 if not r or not r.get("ok"):
